@@ -582,6 +582,19 @@ func (e *Exec) specCall(c *ast.CallExpr, env *SpecEnv) (Val, types.Type) {
 				return iv(mkIte(sx("<=", x, y), x, y)), ta
 			}
 			return iv(mkIte(sx(">=", x, y), x, y)), ta
+		case "nth":
+			// nth(tuple, i): projection of a multi-valued pure call
+			v, t := e.evalSpec1(c.Args[0], env)
+			i, ok := intLit(c.Args[1])
+			tv, isT := v.(TupleV)
+			if !ok || !isT || i >= len(tv) {
+				return e.specErr("nth(tuple, i): not a tuple or index out of range")
+			}
+			var et types.Type
+			if tu, ok := t.(*types.Tuple); ok && i < tu.Len() {
+				et = tu.At(i).Type()
+			}
+			return tv[i], et
 		case "tdivs", "tmods":
 			a, ta := e.evalSpec1(c.Args[0], env)
 			b, _ := e.evalSpec1(c.Args[1], env)
